@@ -90,12 +90,12 @@ def split_and_convert_column_dataloader(
         # the cases dataset only has one column
 
         # manage cases dataset
-        cases_shape = (None,) + first_cases.shape[1:]
+        cases_shape = (None,) + tuple(first_cases.shape[1:])
         new_cases_dataset = convert_column_dataloader_to_tf_dataset(cases_dataset, cases_shape)
 
     else:
         # manage cases dataset
-        cases_shape = (None,) + first_cases[0].shape[1:]
+        cases_shape = (None,) + tuple(first_cases[0].shape[1:])
         new_cases_dataset = convert_column_dataloader_to_tf_dataset(
             cases_dataset, cases_shape, column_index=0)
 
@@ -107,7 +107,7 @@ def split_and_convert_column_dataloader(
             )
 
             # manage labels dataset (extract them from the second column of `cases_dataset`)
-            labels_shape = (None,) + first_cases[1].shape[1:]
+            labels_shape = (None,) + tuple(first_cases[1].shape[1:])
             labels_dataset = convert_column_dataloader_to_tf_dataset(
                 cases_dataset, labels_shape, column_index=1)
 
@@ -118,7 +118,7 @@ def split_and_convert_column_dataloader(
                     "and targets. Hence, `labels_dataset` and `targets_dataset` should be empty."
                 )
                 # manage targets dataset (extract them from the third column of `cases_dataset`)
-                targets_shape = (None,) + first_cases[2].shape[1:]
+                targets_shape = (None,) + tuple(first_cases[2].shape[1:])
                 targets_dataset = convert_column_dataloader_to_tf_dataset(
                     cases_dataset, targets_shape, column_index=2)
 
@@ -139,12 +139,12 @@ def split_and_convert_column_dataloader(
                     "The `labels_dataset` should only have one column. "
                     + f"{len(first_labels)} were detected."
                 )
-                labels_shape = (None,) + first_labels[0].shape[1:]
+                labels_shape = (None,) + tuple(first_labels[0].shape[1:])
                 labels_dataset = convert_column_dataloader_to_tf_dataset(
                     labels_dataset, labels_shape, column_index=0
                 )
             else:
-                labels_shape = (None,) + first_labels.shape[1:]
+                labels_shape = (None,) + tuple(first_labels.shape[1:])
                 labels_dataset = convert_column_dataloader_to_tf_dataset(
                     labels_dataset, labels_shape
                 )
@@ -167,12 +167,12 @@ def split_and_convert_column_dataloader(
                     "The `targets_dataset` should only have one column. "
                     + f"{len(first_targets)} were detected."
                 )
-                targets_shape = (None,) + first_targets[0].shape[1:]
+                targets_shape = (None,) + tuple(first_targets[0].shape[1:])
                 targets_dataset = convert_column_dataloader_to_tf_dataset(
                     targets_dataset, targets_shape, column_index=0
                 )
             else:
-                targets_shape = (None,) + first_targets.shape[1:]
+                targets_shape = (None,) + tuple(first_targets.shape[1:])
                 targets_dataset = convert_column_dataloader_to_tf_dataset(
                     targets_dataset, targets_shape
                 )
